@@ -186,7 +186,7 @@ def structural_save_load(repo):
             popped.append(n.args[0].value)
     saved_keys = sorted({a.lstrip('_') for a in attrs if a not in popped})
     ok = saved_keys == sorted(params)
-    out.append({'id': 'save-keys', 'kind': 'post', 'ok': ok,
+    out.append({'id': 'save-keys', 'definite': True, 'kind': 'post', 'ok': ok,
                 'label': 'save() dumps exactly the constructor\'s parameters (each setting saved and restorable)',
                 'detail': 'saved keys %r vs constructor parameters %r (popped %r)' % (saved_keys, sorted(params), popped)})
     # data = dict(self.__dict__) ... {k.lstrip('_'): v} ; data['path'] = str(data['path'])
@@ -207,7 +207,7 @@ def structural_save_load(repo):
     need = {'sys_path': 'list(map(str, sys_path))', 'added_sys_path': 'list(map(str, added_sys_path))',
             'environment_path': 'str(environment_path)'}
     miss = [k for k, v in need.items() if v not in src_init]
-    out.append({'id': 'init-jsonable', 'kind': 'post', 'ok': not miss,
+    out.append({'id': 'init-jsonable', 'definite': True, 'kind': 'post', 'ok': not miss,
                 'label': 'constructor maps str/Path valued settings (sys_path, added_sys_path, environment_path) '
                          'to str, so save() cannot fail on Path values',
                 'detail': 'not mapped: %r' % miss, 'contract': 'C20.Project.__init__'})
